@@ -416,6 +416,11 @@ def R5_tlv_reader(run):
                                     ok = False
     run.check("R5", "epoch-selection", ok, "pino_get_epoch_transfer_fee does not return the newer triple iff epoch >= newer epoch (all three fields from one prefix)", loc=g.loc(),
               detail="epoch >= newer.epoch ? newer{epoch,bps,max} : older{epoch,bps,max}")
+    # a mint that has the extension always has a fee schedule: nothing but the epoch decides which, and `None` is returned only for
+    # a mint without the extension (a newer rate of 0 bp does not mean the older, still running, rate is 0)
+    extra = [at for at in A.atoms(g) if at0 is None or at is not at0[0]]
+    run.check("R5", "epoch-only", not extra, "pino_get_epoch_transfer_fee also branches on %s; with the extension present only the epoch may decide" % [at.describe()[:80] for at in extra[:3]],
+              loc=g.loc(), detail="no test besides epoch >= newer epoch")
     # the Anchor path's selection: Token-2022's own selector on the current epoch, or the same comparison written out
     h = facts.need_fn("util::v2::token::get_epoch_transfer_fee")
     run.touch(h)
